@@ -26,8 +26,8 @@ ASSUMPTIONS = [
     "strings are compared by code point; characters above U+FFFF are outside the alphabet",
 ]
 BOUND = {
-    "quick": "E2: sort of every column after every history of <= 2 in-place edits / observe-and-discard calls / cell pokes from 7 initial frames; long periodic frames of 17 and 40 rows (period <= 3 over {NA,lo,hi}) per kind; one key: rows 0..3 (0..4 for alphabets <= 4 values) over 'quick' alphabets of 9 kinds x dir; two keys: all 81 kind pairs x {NA,lo,hi}^2 rows 0..3 x 4 direction vectors; three keys: 12 kind triples rows 0..2 x 8 direction vectors",
-    "thorough": "long periodic frames of 17, 40, 130, 300 rows (period <= 4); one key: rows 0..4 (0..5 for alphabets <= 4 values) over 'thorough' alphabets x dir; two keys: all kind pairs rows 0..4; three keys: 12 kind triples rows 0..3",
+    "quick": "E2: sort of every column after every history of <= 2 in-place edits / observe-and-discard calls / cell pokes from 7 initial frames; long periodic frames of 17 and 40 rows (period <= 3 over {NA,lo,hi}) per kind; one key: rows 0..3 (0..4 for alphabets <= 4 values) over 'quick' alphabets of 9 kinds x dir; two keys: all 81 kind pairs x {NA,lo,hi}^2 rows 0..3 x 4 direction vectors; three keys: 12 kind triples rows 0..2 x 8 direction vectors; particular values (marker-like text, extreme dates, int64 ends, +inf, two instants of one day), float32 / int32 keys, array forms and provenances of the one-key frames as in C02",
+    "thorough": "long periodic frames of 17, 40, 130, 300 rows (period <= 4); one key: rows 0..4 (0..5 for alphabets <= 4 values) over 'thorough' alphabets x dir; two keys: all kind pairs rows 0..4; three keys: 12 kind triples rows 0..3; plus the additions listed for the quick tier",
 }
 TIME_CAP = {"quick": 240, "thorough": 3000}
 
